@@ -62,7 +62,7 @@ enum ProbeId {
   PR_GROWTH = 0, PR_AT_CAPACITY, PR_BUILTIN_FULL, PR_READ_FAIL_AFTER_ONE, PR_OOM_HANDLED, PR_OOM_SWALLOWED,
   PR_FRACTION_PARSED_IN_COMMA_LOCALE, PR_ERR_ALIVE_10, PR_PREEMPT_VISIBLE, PR_DUP_REJECTED, PR_READ_OK_MULTI, PR_COPY_MUTATED,
   PR_READ_SHORT_OK, PR_NESTED_FORMULA, PR_NIST_FALLBACK, PR_ERR_PROPAGATED, PR_SHARED_CRYSTAL_2TASKS, PR_READ_EIO,
-  PR_READ_TRUNC_REJECT, PR_ARRAY_ZERO_CAP, PR_N
+  PR_READ_TRUNC_REJECT, PR_ARRAY_ZERO_CAP, PR_PARSE_UNDER_TLOC, PR_PARSE_FAIL_UNDER_TLOC, PR_READFILE_UNDER_TLOC, PR_N
 };
 extern const char* const kProbeNames[PR_N];
 
@@ -162,6 +162,10 @@ struct TaskCtx {
   bool fault_fired = false;
   int open_streams = 0;
   long io_steps = 0, io_budget = 0;
+  // the locale object the CALLER of the library installed in this thread with uselocale() (plan field tloc)
+  void* caller_loc = nullptr;
+  int caller_loc_kind = 0;
+  char caller_loc_sig[96] = {0};
 };
 void publish_ctx(TaskCtx* t);   // make t's op the one blamed for a crash / violation (called when t gets the CPU)
 extern thread_local TaskCtx* t_task;
@@ -179,6 +183,14 @@ const char* locale_name(int cfg);
 bool apply_locale(int cfg);
 extern int g_locale_cfg;
 extern std::string g_locale_all;  // setlocale(LC_ALL,NULL) right after apply_locale
+// Caller-owned per-thread locale (plan field `tloc`): programs that call uselocale() themselves hand the library a
+// thread whose current locale is a heap object the library does not own.
+//   0 none (thread follows the process locale)   1 copy of the process locale
+//   2 copy with LC_NUMERIC=xx_XX (decimal comma)  3 copy with LC_NUMERIC=C
+enum { TLOC_NONE = 0, TLOC_DUP = 1, TLOC_XX = 2, TLOC_C = 3, TLOC_N = 4 };
+void caller_locale_install(int kind);            // start of a task body (real libc, the harness is the caller)
+void caller_locale_check(bool identity, const char* fn);   // after every op; identity: the thread must still use it
+void caller_locale_remove();                      // end of a task body
 
 // ---------------------------------------------------------------- scheduler / race detector (sched.cc)
 void on_mem_access(uintptr_t a, size_t n, bool write, uintptr_t pc);   // from callbacks and ranged seams
